@@ -178,7 +178,7 @@ func VH_C15_split() {
 }
 
 //verif:harness prop=C15 quick=2 thorough=4 merge=concrete timeout=1500
-//verif:bounds gts extract with locator `gene` (plain: forward-strand genes; -v: either strand): linear record of 5 symbolic residues with 2 (quick) / 3 (thorough) genes, symbolic coordinates
+//verif:bounds gts extract with locator `gene` (plain: forward-strand genes, given once or twice; -v: either strand): linear record of 5 symbolic residues with 2 (quick) / 3 (thorough) genes, symbolic coordinates
 func VH_C15_extract() {
 	sh := vShard(2 + 2*vTier())
 	L, nf := 5, 2+vTier()/1*(sh/2)
@@ -188,6 +188,9 @@ func VH_C15_extract() {
 	args := []string{"--no-cache", "gene"}
 	if invert {
 		args = []string{"--no-cache", "-v", "gene"}
+	} else if vChoice("twice", 2) == 1 {
+		// two locator arguments that resolve to the same regions: still no duplicates
+		args = []string{"--no-cache", "gene", "gene"}
 	}
 	out, err := vRunCmd("extract", extractFunc, args, []gts.Sequence{gb})
 	vAssert("command-ok", err == nil)
